@@ -52,18 +52,18 @@ func (l *countingLogger) note(s string) {
 		l.last.Store(s)
 	}
 }
-func (l *countingLogger) Debug(string)               {}
-func (l *countingLogger) Info(string)                {}
-func (l *countingLogger) Warn(string)                {}
-func (l *countingLogger) Error(m string)             { l.note(m) }
-func (l *countingLogger) Fatal(m string)             { panic("logger.Fatal: " + m) }
-func (l *countingLogger) Print(string)               {}
-func (l *countingLogger) Debugf(string, ...any)      {}
-func (l *countingLogger) Infof(string, ...any)       {}
-func (l *countingLogger) Warnf(string, ...any)       {}
-func (l *countingLogger) Errorf(f string, a ...any)  { l.note(fmt.Sprintf(f, a...)) }
-func (l *countingLogger) Fatalf(f string, a ...any)  { panic("logger.Fatalf: " + fmt.Sprintf(f, a...)) }
-func (l *countingLogger) Printf(string, ...any)      {}
+func (l *countingLogger) Debug(string)              {}
+func (l *countingLogger) Info(string)               {}
+func (l *countingLogger) Warn(string)               {}
+func (l *countingLogger) Error(m string)            { l.note(m) }
+func (l *countingLogger) Fatal(m string)            { panic("logger.Fatal: " + m) }
+func (l *countingLogger) Print(string)              {}
+func (l *countingLogger) Debugf(string, ...any)     {}
+func (l *countingLogger) Infof(string, ...any)      {}
+func (l *countingLogger) Warnf(string, ...any)      {}
+func (l *countingLogger) Errorf(f string, a ...any) { l.note(fmt.Sprintf(f, a...)) }
+func (l *countingLogger) Fatalf(f string, a ...any) { panic("logger.Fatalf: " + fmt.Sprintf(f, a...)) }
+func (l *countingLogger) Printf(string, ...any)     {}
 
 var _ lib.LoggerI = (*countingLogger)(nil)
 
@@ -89,16 +89,16 @@ func (c *passiveController) LoadCertificate(uint64) (*lib.QuorumCertificate, lib
 func (c *passiveController) CommitCertificate(*lib.QuorumCertificate, *lib.Block, *lib.BlockResult, uint64) lib.ErrorI {
 	return nil
 }
-func (c *passiveController) GossipBlock(*lib.QuorumCertificate, []byte, uint64)   {}
-func (c *passiveController) GossipConsensus(*bft.Message, []byte)                {}
-func (c *passiveController) SelfSendBlock(*lib.QuorumCertificate, uint64)        {}
-func (c *passiveController) SendToReplicas(lib.ValidatorSet, lib.Signable)       {}
-func (c *passiveController) SendToProposer(lib.Signable)                         {}
-func (c *passiveController) LoadRootChainId(uint64) uint64                       { return envChainID }
-func (c *passiveController) LoadIsOwnRoot() bool                                 { return true }
-func (c *passiveController) Syncing() *atomic.Bool                               { return &c.syncing }
-func (c *passiveController) ResetFSM()                                           {}
-func (c *passiveController) SendCertificateResultsTx(*lib.QuorumCertificate)     {}
+func (c *passiveController) GossipBlock(*lib.QuorumCertificate, []byte, uint64) {}
+func (c *passiveController) GossipConsensus(*bft.Message, []byte)               {}
+func (c *passiveController) SelfSendBlock(*lib.QuorumCertificate, uint64)       {}
+func (c *passiveController) SendToReplicas(lib.ValidatorSet, lib.Signable)      {}
+func (c *passiveController) SendToProposer(lib.Signable)                        {}
+func (c *passiveController) LoadRootChainId(uint64) uint64                      { return envChainID }
+func (c *passiveController) LoadIsOwnRoot() bool                                { return true }
+func (c *passiveController) Syncing() *atomic.Bool                              { return &c.syncing }
+func (c *passiveController) ResetFSM()                                          {}
+func (c *passiveController) SendCertificateResultsTx(*lib.QuorumCertificate)    {}
 func (c *passiveController) LoadCommittee(uint64, uint64) (lib.ValidatorSet, lib.ErrorI) {
 	return c.vs, nil
 }
